@@ -58,6 +58,13 @@ REPROS = [
      "setup": T3 + ["insert into t2 values (1,2,'a'),(NULL,NULL,'')"],
      "sql": "select (2 + 1) as c1, max(x1.b) as c3 from t2 as x1 group by (2 + 1) limit 3",
      "configs": ["mem.on"]},
+    {"id": "Q12", "properties": ["C02"],
+     "summary": "a CTE referenced more than once is bound once and every reference shares the same column "
+                "identities: in `with d as (..) select .. from d as x join d as y on x.a = y.a` the condition "
+                "becomes a = a (all non-NULL pairs match), x.a < y.a becomes a < a (nothing matches)",
+     "setup": T3 + ["insert into t3 values (1,2),(3,4)"],
+     "sql": "with d as (select a, b from t3) select x.a, y.b from d as x join d as y on x.a = y.a",
+     "configs": ["mem.on", "mem.off"]},
     {"id": "Q11", "properties": ["C02", "C01"],
      "summary": "a scalar subquery with a WHERE clause is unnested into an aggregation grouped by all outer "
                 "columns, which merges duplicate outer rows: with t3 = {(0,1),(0,1),(2,1),(2,NULL)} the query "
